@@ -1227,7 +1227,7 @@ coap_pdu_parse_opt_base(coap_pdu_t *pdu, uint32_t len) {
       res = 0;
     break;
   case COAP_OPTION_URI_QUERY:
-    if (len < 1 || len > 255)
+    if (len > 255)
       res = 0;
     break;
   case COAP_OPTION_HOP_LIMIT:
@@ -1242,6 +1242,10 @@ coap_pdu_parse_opt_base(coap_pdu_t *pdu, uint32_t len) {
     if (len > 255)
       res = 0;
     break;
+  case COAP_OPTION_Q_BLOCK1:
+    if (len > 3)
+      res = 0;
+    break;
   case COAP_OPTION_BLOCK2:
     if (len > 3)
       res = 0;
@@ -1252,6 +1256,10 @@ coap_pdu_parse_opt_base(coap_pdu_t *pdu, uint32_t len) {
     break;
   case COAP_OPTION_SIZE2:
     if (len > 4)
+      res = 0;
+    break;
+  case COAP_OPTION_Q_BLOCK2:
+    if (len > 3)
       res = 0;
     break;
   case COAP_OPTION_PROXY_URI:
@@ -1267,7 +1275,7 @@ coap_pdu_parse_opt_base(coap_pdu_t *pdu, uint32_t len) {
       res = 0;
     break;
   case COAP_OPTION_ECHO:
-    if (len > 40)
+    if (len < 1 || len > 40)
       res = 0;
     break;
   case COAP_OPTION_NORESPONSE:
